@@ -74,28 +74,22 @@ def run(ctx: Ctx, rep: Report) -> None:
             for callee in ctx.r.callees(enc, rexp):
                 if isinstance(callee, FuncInfo):
                     pred_fn = callee
-        targets: List[ClassInfo] = []
-        pred_site = enc.site(fcalls[0])
+        pred_site = pred_fn.site() if pred_fn is not None else enc.site(fcalls[0])
         if pred_fn is not None:
-            pred_site = pred_fn.site()
             rets = [n for n in own_nodes(pred_fn.node) if isinstance(n, ast.Return) and n.value is not None]
-            if len(rets) == 1 and isinstance(rets[0].value, ast.Call) and norm(rets[0].value.func) == "isinstance" and norm(rets[0].value.args[0]) == pred_fn.params[0]:
-                spec = rets[0].value.args[1]
-                elts = spec.elts if isinstance(spec, ast.Tuple) else [spec]
-                targets = [c for c in (ctx.r.resolve_class(pred_fn.module, e) for e in elts) if c is not None]
-        elif isinstance(rexp, ast.Call) and norm(rexp.func) == "isinstance" and norm(rexp.args[0]) == pdu_param:
-            spec = rexp.args[1]
-            elts = spec.elts if isinstance(spec, ast.Tuple) else [spec]
-            targets = [c for c in (ctx.r.resolve_class(enc.module, e) for e in elts) if c is not None]
-        if not targets:
-            rep.undecided("C10-R1", pred_site, "reportable predicate is an isinstance test on the PDU", f"reportable = {norm(rexp) if rexp is not None else None}")
+            body_expr = ctx.xexpand(pred_fn, rets[0].value) if len(rets) == 1 else None
+            subject, host = pred_fn.params[0], pred_fn
+        else:
+            body_expr, subject, host = rexp, pdu_param, enc
+        if body_expr is None:
+            rep.undecided("C10-R1", pred_site, "reportable predicate is a single expression over the PDU", f"reportable = {norm(rexp) if rexp is not None else None}")
         else:
             for cls in sorted((c for c in ctx.u.classes.values() if c.module.name == "puresnmp.pdu" and ctx.r.is_subclass(c, pdu_base) and c != pdu_base), key=lambda c: c.name):
-                val = any(ctx.r.is_subclass(cls, t) for t in targets)
+                val = eval_pred(ctx, host, body_expr, subject, cls)
                 if cls.name in rfc.CONFIRMED_CLASS:
-                    rep.check(val, "C10-R1", pred_site, f"{cls.name} is a confirmed-class PDU: requests carrying it are marked reportable", f"predicate targets {[t.name for t in targets]}", key=f"reportable|{cls.name}|not-marked")
+                    rep.check(val, "C10-R1", pred_site, f"{cls.name} is a confirmed-class PDU: requests carrying it are marked reportable", f"predicate `{norm(body_expr)[:80]}` evaluates to {val} for {cls.name}", key=f"reportable|{cls.name}|not-marked")
                 elif cls.name in rfc.UNCONFIRMED_CLASS:
-                    rep.check(not val, "C10-R1", pred_site, f"{cls.name} is not confirmed class: never marked reportable", f"predicate targets {[t.name for t in targets]}", key=f"reportable|{cls.name}|marked")
+                    rep.check(None if val is None else not val, "C10-R1", pred_site, f"{cls.name} is not confirmed class: never marked reportable", f"predicate `{norm(body_expr)[:80]}` evaluates to {val} for {cls.name}", key=f"reportable|{cls.name}|marked")
 
     # ------------------------------------------------------------ R2
     gdefs = ctx.defs(gen)
@@ -167,14 +161,17 @@ def run(ctx: Ctx, rep: Report) -> None:
             if gn.id in ids and (tn.id not in ids or ids.index(tn.id) > ids.index(gn.id)):
                 ok = False
     rep.check(ok, "C10-R2", enc.site(), "the request is secured for the discovered engine id with the caller's credentials, after the timing cache was fed", key=f"{enc.key}|secure-call")
-    # positional construction order in apply_encryption
-    for n in own_nodes(ae.node):
-        if isinstance(n, ast.Call) and ctx.r.resolve_class(ae.module, n.func) == params_cls:
-            pb = bind_call_args(n, dataclass_fields(params_cls), skip_self=False)
-            want = {"authoritative_engine_id": "security_engine_id", "authoritative_engine_boots": "engine_boots", "authoritative_engine_time": "engine_time", "user_name": "security_name", "auth_params": "b''"}
-            g3 = {k: norm(v) for k, v in pb.items()}
-            ok = all(g3.get(k) == v for k, v in want.items()) and g3.get("priv_params") in ("b''", "salt")
-            rep.check(ok, "C10-R2", ae.site(n), "USMSecurityParameters(engine id, boots, time, user, empty digest, salt) in RFC 3414 order", f"{g3}", key=f"{ae.key}|params-order")
+    # positional construction order in apply_encryption (possibly inside a local helper closure)
+    ctor_hosts = [ae] + list(ae.nested.values())
+    for host in ctor_hosts:
+        for n in own_nodes(host.node):
+            if isinstance(n, ast.Call) and ctx.r.resolve_class(host.module, n.func) == params_cls:
+                pb = bind_call_args(n, dataclass_fields(params_cls), skip_self=False)
+                want = {"authoritative_engine_id": "security_engine_id", "authoritative_engine_boots": "engine_boots", "authoritative_engine_time": "engine_time", "user_name": "security_name", "auth_params": "b''"}
+                g3 = {k: norm(v) for k, v in pb.items()}
+                privp = g3.get("priv_params")
+                ok = all(g3.get(k) == v for k, v in want.items()) and (privp in ("b''", "salt") or privp in host.params)
+                rep.check(ok, "C10-R2", host.site(n), "USMSecurityParameters(engine id, boots, time, user, empty digest, salt) in RFC 3414 order", f"{g3}", key=f"{ae.key}|params-order")
 
     # ------------------------------------------------------------ R3
     ab = bind_call_args(aa_call, aa.params, skip_self=False)
@@ -292,7 +289,7 @@ def run(ctx: Ctx, rep: Report) -> None:
                 return True
             return None
 
-        outs = simulate(ctx.cfg(fn), env)
+        outs = simulate(ctx.cfg(fn), env, expand=defs.expand)
         ok = bool(outs) and all(o.kind in ("return", "fallthrough") for o in outs)
         rep.check(ok, "C10-R7", fn.site(), "a message whose digest verifies (auth flag set, auth credentials) is accepted on every path", f"{outs}", key=f"{fn.key}|authentic-refused")
     check_length_encoder(ctx, rep)
@@ -391,3 +388,103 @@ def check_length_encoder(ctx: Ctx, rep: Report) -> None:
             f"taken return: {rets[-1] if rets else run_.end}",
             key=f"x690.util:encode_length|non-minimal|{value}",
         )
+
+
+def const_collection(ctx: Ctx, fn: FuncInfo, expr: ast.AST, depth: int = 0) -> Optional[List[Any]]:
+    """Elements of a constant collection expression: literals, set()/frozenset()/tuple() of one, {c.ATTR for c in (K1, K2)}; classes stay ClassInfo."""
+    if depth > 4:
+        return None
+    if isinstance(expr, ast.Name):
+        got = ctx.r.resolve_name(fn.module, expr.id)
+        if got is not None and got.kind == "value" and got.module is not None:
+            return const_collection(ctx, FuncInfo(got.module, "<module>", fn.node), got.target, depth + 1)
+        return None
+    if isinstance(expr, (ast.Tuple, ast.List, ast.Set)):
+        out = []
+        for e in expr.elts:
+            cls = ctx.r.resolve_class(fn.module, e) if isinstance(e, (ast.Name, ast.Attribute)) else None
+            if cls is not None:
+                out.append(cls)
+                continue
+            try:
+                out.append(ctx.r.const(fn.module, e))
+            except NotConstant:
+                return None
+        return out
+    if isinstance(expr, ast.Call) and isinstance(expr.func, ast.Name) and expr.func.id in ("set", "frozenset", "tuple", "list") and len(expr.args) == 1:
+        return const_collection(ctx, fn, expr.args[0], depth + 1)
+    if isinstance(expr, (ast.SetComp, ast.ListComp, ast.GeneratorExp)) and len(expr.generators) == 1 and not expr.generators[0].ifs and isinstance(expr.generators[0].target, ast.Name):
+        src = const_collection(ctx, fn, expr.generators[0].iter, depth + 1)
+        if src is None:
+            return None
+        var = expr.generators[0].target.id
+        out = []
+        for item in src:
+            if isinstance(item, ClassInfo) and isinstance(expr.elt, ast.Attribute) and isinstance(expr.elt.value, ast.Name) and expr.elt.value.id == var:
+                try:
+                    out.append(ctx.r.class_const(item, expr.elt.attr))
+                except NotConstant:
+                    return None
+            elif isinstance(expr.elt, ast.Name) and expr.elt.id == var:
+                out.append(item)
+            else:
+                return None
+        return out
+    return None
+
+
+def eval_pred(ctx: Ctx, fn: FuncInfo, expr: ast.AST, subject: str, cls: ClassInfo) -> Optional[bool]:
+    """Truth of a predicate over ``subject`` when subject is an instance of *cls* (class-table evaluation)."""
+    if isinstance(expr, ast.BoolOp):
+        vals = [eval_pred(ctx, fn, v, subject, cls) for v in expr.values]
+        if isinstance(expr.op, ast.Or):
+            return True if any(v is True for v in vals) else (None if any(v is None for v in vals) else False)
+        return False if any(v is False for v in vals) else (None if any(v is None for v in vals) else True)
+    if isinstance(expr, ast.UnaryOp) and isinstance(expr.op, ast.Not):
+        v = eval_pred(ctx, fn, expr.operand, subject, cls)
+        return None if v is None else not v
+    if isinstance(expr, ast.Call) and isinstance(expr.func, ast.Name) and expr.func.id == "isinstance" and len(expr.args) == 2 and norm(expr.args[0]) == subject:
+        coll = const_collection(ctx, fn, expr.args[1] if isinstance(expr.args[1], (ast.Tuple, ast.Name)) else ast.Tuple([expr.args[1]], ast.Load()))
+        if coll is None:
+            single = ctx.r.resolve_class(fn.module, expr.args[1])
+            coll = [single] if single is not None else None
+        if coll is None or not all(isinstance(c, ClassInfo) for c in coll):
+            return None
+        return any(ctx.r.is_subclass(cls, c) for c in coll)
+    if isinstance(expr, ast.Compare) and len(expr.ops) == 1:
+        left, right = expr.left, expr.comparators[0]
+
+        def subject_value(e: ast.AST) -> Any:
+            t = norm(e)
+            for attr_prefix in (f"{subject}.", f"type({subject}).", f"{subject}.__class__."):
+                if t.startswith(attr_prefix) and t[len(attr_prefix):].isidentifier():
+                    try:
+                        return ("const", ctx.r.class_const(cls, t[len(attr_prefix):]))
+                    except NotConstant:
+                        return None
+            if t in (f"type({subject})", f"{subject}.__class__"):
+                return ("class", cls)
+            return None
+
+        lv = subject_value(left)
+        if lv is None:
+            return None
+        if isinstance(expr.ops[0], (ast.In, ast.NotIn)):
+            coll = const_collection(ctx, fn, right)
+            if coll is None:
+                return None
+            hit = lv[1] in coll if lv[0] == "const" else any(c == lv[1] for c in coll)
+            return hit if isinstance(expr.ops[0], ast.In) else not hit
+        if isinstance(expr.ops[0], (ast.Eq, ast.NotEq, ast.Is, ast.IsNot)):
+            if lv[0] == "class":
+                rc = ctx.r.resolve_class(fn.module, right)
+                if rc is None:
+                    return None
+                eq = rc == lv[1]
+            else:
+                try:
+                    eq = ctx.r.const(fn.module, right) == lv[1]
+                except NotConstant:
+                    return None
+            return eq if isinstance(expr.ops[0], (ast.Eq, ast.Is)) else not eq
+    return None
